@@ -56,7 +56,13 @@ def make_info(rng, idx, paths, marker=None, malformed=False, agree_starts=False,
         # parse_lcov rejects the whole file; the offending record is short, or long with multi-byte characters at every
         # offset around 64 / 96 / 128 bytes (error messages quote it)
         k = rng.choice([0, 0, 58, 61, 90, 93, 122, 125])
-        bad = "DA:x1,2" if k == 0 else "DA:" + "x" * (k + rng.randrange(0, 4)) + "é日本ü" * 6 + ",2"
+        if k == 0:
+            bad = "DA:x1,2"
+        elif rng.random() < 0.5:
+            bad = "DA:" + "x" * (k + rng.randrange(0, 4)) + "é日本ü" * 6 + ",2"
+        else:
+            # an FNDA whose function has no FN record: the message quotes the name
+            bad = "FNDA:1," + "n" * rng.randrange(0, 70) + "é日本ü" * 12
         out += "SF:broken.c\n%s\nend_of_record\n" % bad
     return out.encode()
 
